@@ -467,6 +467,8 @@ type tid = nat
 
 val w_is_free : z -> bool
 
+val w_is_obsolete : z -> bool
+
 val w_set_locked : z -> z
 
 val w_obsolete : z
@@ -496,6 +498,24 @@ val lstep : lstate -> event -> lstate option
 val lrun : lstate -> event list -> lstate option
 
 val lrun_diag : lstate -> event list -> nat -> lstate * nat option
+
+type blk = nat
+
+type gev = blk * event
+
+val project : blk -> gev list -> event list
+
+val node_accepts : (blk * lstate) list -> gev list -> bool
+
+val node_diag : (blk * lstate) list -> gev list -> (blk * nat) option
+
+val held_after : (blk * tid) list -> gev list -> (blk * tid) list
+
+val holds_any : (blk * tid) list -> tid -> bool
+
+val no_wait_while_holding : (blk * tid) list -> gev list -> bool
+
+val olc_trace_ok : (blk * lstate) list -> gev list -> bool
 
 type tid0 = nat
 
